@@ -311,6 +311,8 @@ class Rules:
                             lambda m: 'VP_LOWEST(%s)' % m.group(1).replace('::', '_').replace(' ', '_'), text)
             text = self.sub('R4', r'(?:std::)?numeric_limits\s*<\s*([\w: ]+?)\s*>\s*::\s*infinity\s*\(\s*\)',
                             lambda m: 'VP_INF(%s)' % m.group(1).replace('::', '_').replace(' ', '_'), text)
+            text = self.sub('R4', r'(?:std::)?numeric_limits\s*<\s*([\w: ]+?)\s*>\s*::\s*(is_integer|is_signed)\b',
+                            lambda m: 'VP_%s(%s)' % (m.group(2).upper(), m.group(1).replace('::', '_').replace(' ', '_')), text)
         if 'R1' not in skip:
             text = self.sub('R1', r'\b(?:std|fmt::internal|fmt|mp::internal|mp|internal)::(?=[A-Za-z_])', '', text)
         if 'R5' not in skip:
@@ -535,7 +537,7 @@ class Fn:
 
     def __init__(self, file, anchor, proto, contract='', loops=None, subst=(), ordinal=0,
                  nmatches=None, skip=(), pre='', post='', block_end=None, signal_points=False,
-                 label=None, inst=None, wrap_body=True, expect_fired=None, drop_init=False):
+                 label=None, inst=None, wrap_body=True, expect_fired=None, drop_init=False, defines=None):
         self.file = file
         self.anchor = anchor
         self.proto = proto
@@ -554,6 +556,7 @@ class Fn:
         self.wrap_body = wrap_body
         self.expect_fired = expect_fired or {}
         self.drop_init = drop_init
+        self.defines = defines or {}
         self.info = None
 
     def cname(self):
@@ -601,10 +604,12 @@ class Fn:
             body = '{ ' + self.pre + ' ' + body[1:]
         if self.post:
             body = body[:-1] + ' ' + self.post + ' }'
-        text = '#line %d "%s"\n%s\n%s\n#line %d "%s"\n%s\n' % (
+        defs = ''.join('#define %s %s\n' % kv for kv in self.defines.items())      # R16: reference parameters
+        undefs = ''.join('#undef %s\n' % k for k in self.defines)
+        text = '#line %d "%s"\n%s\n%s\n%s#line %d "%s"\n%s\n%s' % (
             ex.sig_line, os.path.join(REPO, ex.file), self.proto,
-            ' '.join(self.contract.split()),
-            ex.line, os.path.join(REPO, ex.file), body)
+            ' '.join(self.contract.split()), defs,
+            ex.line, os.path.join(REPO, ex.file), body, undefs)
         self.info = {
             'function': self.label or self.cname(),
             'c_name': self.cname(),
@@ -618,6 +623,33 @@ class Fn:
             'init_list_dropped': ' '.join(ex.init_list.split()) if (ex.init_list and self.drop_init) else '',
         }
         return text
+
+
+class Braced:
+    """A struct / array definition extracted verbatim (signature + braces + ';') with substitutions."""
+
+    def __init__(self, file, anchor, subst=(), header=None, label=None):
+        self.file, self.anchor, self.subst, self.header, self.label = file, anchor, list(subst), header, label
+        self.info = None
+
+    def render(self):
+        ex = find_braced(self.file, self.anchor)
+        body = ex.body
+        rep = []
+        for s_ in self.subst:
+            pat, repl = s_[0], s_[1]
+            expect = s_[2] if len(s_) > 2 else None
+            body, n = re.subn(pat, repl, body, flags=re.S)
+            if (expect is None and n == 0) or (expect is not None and expect >= 0 and n != expect):
+                raise ExtractionError("%s:%d: substitution /%s/ fired %d times, expected %s" % (self.file, ex.line, pat, n, expect))
+            rep.append({'pattern': pat, 'replacement': repl, 'fired': n})
+        rules = Rules()
+        body = rules.apply(body)
+        head = self.header if self.header is not None else ' '.join(ex.signature.split())
+        self.info = {'function': self.label or head, 'c_name': head, 'file': ex.file, 'line': ex.line,
+                     'end_line': ex.end_line, 'instantiation': None, 'signature_dropped': '',
+                     'rules_fired': dict(rules.fired), 'spec_substitutions': rep}
+        return '#line %d "%s"\n%s %s;\n' % (ex.line, os.path.join(REPO, ex.file), head, body)
 
 
 def extract_enum(file, anchor, prefix='', strip_init_scope=True):
